@@ -1,10 +1,15 @@
 package props
 
 import (
+	"bytes"
+	"context"
 	"encoding/json"
 	"fmt"
 	"io"
 	"os"
+	"os/exec"
+	"strings"
+	"time"
 )
 
 // Child mode: the test binary re-executes itself with VERIF_CHILD=<unit>; the scenario
@@ -27,7 +32,55 @@ func childMain() {
 		os.Exit(98)
 	}
 	res := f(raw)
+	// a panic on a library goroutine may be in flight while its deferred calls already released this
+	// goroutine (errgroup's deferred done()): give it the time to take the process down, as it would in production
+	time.Sleep(60 * time.Millisecond)
 	b, _ := json.Marshal(res)
 	fmt.Printf("RESULT %s\n", b)
 	os.Exit(0)
+}
+
+type childResult struct {
+	Exit    int             // process exit code (-1: killed by the deadline)
+	Result  json.RawMessage // RESULT line, if the child finished its function
+	Stderr  string          // tail of stderr (library panic message etc.)
+	Stdout  string
+	TimeOut bool
+	Wall    time.Duration
+}
+
+// runChild executes one scenario in a fresh process of this test binary.
+func runChild(unit string, sc any, timeout time.Duration, extraEnv ...string) childResult {
+	in, _ := json.Marshal(sc)
+	ctx, cancel := context.WithTimeout(context.Background(), timeout)
+	defer cancel()
+	cmd := exec.CommandContext(ctx, os.Args[0], "-test.run", "^$")
+	cmd.Env = append(os.Environ(), "VERIF_CHILD="+unit, "VERIF_STATS_OUT=", "VERIF_INFLIGHT=", "VERIF_REPLAY_OUT=")
+	cmd.Env = append(cmd.Env, extraEnv...)
+	cmd.Stdin = bytes.NewReader(in)
+	var so, se bytes.Buffer
+	cmd.Stdout, cmd.Stderr = &so, &se
+	t0 := time.Now()
+	err := cmd.Run()
+	r := childResult{Wall: time.Since(t0), Stdout: so.String()}
+	if ctx.Err() != nil {
+		r.TimeOut = true
+		r.Exit = -1
+	} else if err != nil {
+		r.Exit = 1
+		if ee, ok := err.(*exec.ExitError); ok {
+			r.Exit = ee.ExitCode()
+		}
+	}
+	for _, l := range strings.Split(so.String(), "\n") {
+		if strings.HasPrefix(l, "RESULT ") {
+			r.Result = json.RawMessage(strings.TrimPrefix(l, "RESULT "))
+		}
+	}
+	s := se.String()
+	if len(s) > 1500 {
+		s = s[:1500]
+	}
+	r.Stderr = s
+	return r
 }
